@@ -43,6 +43,9 @@ def generate(rng, tier):
     # oracle-only stream: many classes, data kinds, property groups, shared types, multi-child removal, copies, two workspaces
     m = 40 if tier == "quick" else 1000
     cases += [{"ext": True, "ops": wsext.gen_ext_history(rng.fork(5000 + i), rng.range(20, 36))} for i in range(m)]
+    # two workspaces with copies between them (identifiers kept when free in the target): compared with the Coq model
+    k = 24 if tier == "quick" else 600
+    cases += [{"w": True, "ops": W.gen_history_w(rng.fork(9000 + i), rng.range(14, 24))} for i in range(k)]
     return cases
 
 
@@ -51,12 +54,16 @@ def drive_one(case, work):
         from props import wsext
 
         return wsext.run_ext_history(case["ops"], work, "c01x")
+    if case.get("w"):
+        return W.run_history_w(case["ops"], work, "c01w")
     return W.run_history_x(case["ops"], work, "c01")
 
 
 def case_term(case, obs):
     if case.get("ext"):
         return None  # outside the Coq model: evaluated by the oracle only
+    if case.get("w"):
+        return W.world_case_term(obs["ops_filled"], obs["steps"])
     return W.history_case_term_x(obs["ops_filled"], obs["steps"])
 
 
@@ -116,6 +123,8 @@ def oracle(case, obs):
         return [{"key": "driver-crash", "what": obs["crash"][:300]}]
     if case.get("ext"):
         return oracle_ext(case, obs)
+    if case.get("w"):
+        return oracle_world(case, obs)
     fails = []
     ops, steps = obs.get("ops_filled", case["ops"]), obs["steps"]
     for i, (op, st) in enumerate(zip(ops, steps)):
@@ -132,6 +141,39 @@ def oracle(case, obs):
                 changed = {r[0] for r in lost} | {r[0] for r in extra}
                 key = "stale-node-reused" if changed and changed <= _closure(reused, before, after) else "reopen-differs"
                 fails.append({"key": key, "what": f"after op {i}: live-only rows {lost[:3]}, reopened-only rows {extra[:3]}"})
+                break
+    return fails
+
+
+def oracle_world(case, obs):
+    """two workspaces: at every close + fresh open of workspace i, its re-opened tree equals the tree it showed live"""
+    ops, steps = obs["ops_filled"], obs["steps"]
+    fails = []
+    for i, (op, st) in enumerate(zip(ops, steps)):
+        if str(st["outcome"]).startswith("error"):
+            return [{"key": "unexpected-exception", "what": f"op {i} {op}: {st['outcome']}"}]
+        if op["op"] == "reopen" and i > 0:
+            side = "b" if op["ws"] == 1 else "a"
+            before, after = _tree(steps[i - 1][side]["mem"]), _tree(st[side]["mem"])
+            if before != after:
+                lost = [r for r in before if r not in after]
+                extra = [r for r in after if r not in before]
+                # recorded defect: an entity created / copied over a flat node that was already in that file
+                stale = set()
+                for j in range(1, i):
+                    o = ops[j]
+                    tgt = None
+                    if o["op"] == "copy_x" and (1 - o["ws"]) == op["ws"]:
+                        tgt = "b" if o["ws"] == 0 else "a"
+                    elif o["op"] == "create" and o["ws"] == op["ws"]:
+                        tgt = side
+                    if tgt:
+                        had = {tuple(n["key"]) for n in steps[j - 1][tgt]["file"]["nodes"]}
+                        now = {tuple(r["key"]) for r in steps[j][tgt]["mem"]} - {tuple(r["key"]) for r in steps[j - 1][tgt]["mem"]}
+                        stale |= (had & now)
+                changed = {r[0] for r in lost} | {r[0] for r in extra}
+                key = "stale-node-reused" if stale and changed <= _closure(stale, before, after) else "reopen-differs"
+                fails.append({"key": key, "what": f"workspace {op['ws']} after op {i}: live-only rows {lost[:2]}, reopened-only rows {extra[:2]}"})
                 break
     return fails
 
@@ -162,13 +204,16 @@ def _closure(keys, before, after):
 
 
 def nontrivial(case, obs):
+    if case.get("w"):
+        return any(o["op"] == "copy_x" for o in case["ops"])
     return any(o["op"] in ("rm_ws", "rm_parent", "rm_children", "copy", "pg") for o in case["ops"])
 
 
 def histogram(cases, obs):
     h = {"ops": {}, "outcomes": {}, "length": {}, "reuse_histories": 0, "ext_histories": sum(1 for c in cases if c.get("ext"))}
+    h["world_histories"] = sum(1 for c in cases if c.get("w"))
     for c, o in zip(cases, obs):
-        if not isinstance(o, dict):
+        if not isinstance(o, dict) or c.get("w"):
             continue
         L = str(len(c["ops"]) // 5 * 5)
         h["length"][L] = h["length"].get(L, 0) + 1
